@@ -382,6 +382,7 @@ pub(super) fn action_json(a: &Action) -> serde_json::Value {
         Action::ValidatorUpdate(v) => json!({"kind": "validator_update", "vk": vlog::hex(v.verification_key.as_ref()), "power": v.power, "name": v.name.to_string()}),
         Action::Ics20Withdrawal(w) => json!({"kind": "ics20_withdrawal", "amount": w.amount.to_string(), "denom": w.denom.to_string(), "denom_ibc": w.denom.to_ibc_prefixed().to_string(),
             "channel": w.source_channel.to_string(), "return": b(&w.return_address), "return_str": w.return_address.to_string(), "compat": w.use_compat_address, "bridge": w.bridge_address.as_ref().map(b), "memo": w.memo, "fee_asset": w.fee_asset.to_ibc_prefixed().to_string()}),
+        Action::Ibc(_) => json!({"kind": "ibc_relay", "note": "UpgradeClient for an unknown client: fails at execution"}),
         other => json!({"kind": "other", "debug": format!("{other:?}").chars().take(80).collect::<String>()}),
     }
 }
@@ -1036,6 +1037,49 @@ pub(super) async fn generate_block_txs<S: StateRead>(
                         }
                     }
                 }
+            }
+        }
+    }
+    // a relayer transaction whose IbcRelay action fails: after the Blackburn upgrade that failure is non-fatal, i.e. the transaction stays
+    // in the block with an error code - and must leave no trace (C03), still count towards the block limits (C06), pay nothing (C01) and
+    // publish no deposit (C04), whatever state-changing actions precede the relay inside the same transaction
+    if matches!(profile, "atomic" | "proposals" | "mixed" | "ledger" | "paths" | "bridge") && rng.gen_bool(if profile == "mixed" { 0.15 } else if profile == "proposals" { 0.5 } else { 0.3 }) {
+        let mut relayers = vec![];
+        for (i, a) in u.accts.iter().enumerate() {
+            if i < 12 && state.is_ibc_relayer(&a.addr).await.unwrap_or(false) {
+                relayers.push(i);
+            }
+        }
+        if let Some(&r) = relayers.choose(rng) {
+            let mut actions = vec![];
+            for _ in 0..rng.gen_range(0..=3) {
+                let k2 = ["transfer", "rollup_data", "bridge_lock", "rollup_data"][rng.gen_range(0..4)];
+                if let Some((_, a2, _)) = gen_action(u, rng, state, k2, Some(r), false).await {
+                    actions.push(a2);
+                }
+            }
+            if profile == "proposals" && rng.gen_bool(0.6) {
+                // the failed-but-included transaction carries a large share of the block's sequenced data / bytes: it must still be
+                // counted towards both limits
+                let mut data = vec![0u8; [100_000usize, 180_000, 250_000][rng.gen_range(0..3)]];
+                rng.fill_bytes(&mut data[..64]);
+                let fee_asset = pick_fee_asset(u, rng, state, false).await;
+                actions.insert(0, Action::RollupDataSubmission(RollupDataSubmission { rollup_id: RollupId::new([rng.gen_range(1..=4u8); 32]), data: data.into(), fee_asset }));
+            }
+            actions.push(Action::Ibc(crate::app::tests_app::bad_ibc_relay()));
+            if rng.gen_bool(0.25) {
+                if let Some((_, a2, _)) = gen_action(u, rng, state, "transfer", Some(r), false).await {
+                    actions.push(a2);
+                }
+            }
+            let base = match next_nonce.get(&r) {
+                Some(n) => *n,
+                None => state.get_account_nonce(&u.accts[r].addr).await.unwrap_or(0),
+            };
+            if let Some(b) = build_tx(r, &u.accts[r].key, base, actions, "relay_fails_nonfatal") {
+                // the nonce is NOT consumed when the transaction fails non-fatally, so later transactions of the relayer in this
+                // block keep using `base` only if this one is pre-Blackburn-fatal and excluded; leave next_nonce untouched
+                out.push(b);
             }
         }
     }
